@@ -145,7 +145,10 @@ class WatermarkPoolSink(PoolSink):
     do_close = False
     # This sink is already shutting down
     if self.state == ChannelState.Closed:
+      # Close() only reaches the cached sinks: one that was lent out at the
+      # time is closed here, when its request completes, instead of leaking.
       self._current_size -= 1
+      do_close = True
     # One of the underlying sinks failed, shut down
     elif sink.state == ChannelState.Closed:
       self._current_size -= 1
